@@ -465,7 +465,7 @@ func (x *Unit) set(st *State, comp string, t Term) {
 func exemptFromHavocAll(comp string) bool {
 	return strings.HasPrefix(comp, "D:") || strings.HasPrefix(comp, "DA:") || comp == "$panicking" || comp == "$panicval" ||
 		strings.HasPrefix(comp, "R:") || strings.HasPrefix(comp, "gh:") || strings.HasPrefix(comp, "TL:") || strings.HasPrefix(comp, "TA:") ||
-		strings.HasPrefix(comp, "TR:") || strings.HasPrefix(comp, "TT:") || comp == "clk" || strings.HasPrefix(comp, "L:") || comp == "$nlocks" || comp == "alloc"
+		strings.HasPrefix(comp, "TR:") || strings.HasPrefix(comp, "TT:") || strings.HasPrefix(comp, "TP:") || comp == "clk" || strings.HasPrefix(comp, "L:") || comp == "$nlocks" || comp == "alloc"
 }
 
 // immutableMapComps: contents of maps held in fields declared "immutable contents <maptype>"
@@ -592,36 +592,47 @@ func (x *Unit) merge(states ...*State) *State {
 		}
 		x.epochOrigins[out.epoch] = origs
 	}
-	// vars: only those present in all states
-	for k, v0 := range live[0].vars {
-		all := true
+	// vars: union; a state in which a variable is not (yet) declared contributes an arbitrary value
+	// (the variable cannot be observed on that path: it is out of scope there)
+	allVars := map[types.Object]Term{}
+	var order []types.Object
+	for _, s := range live {
+		for k, v := range s.vars {
+			if _, ok := allVars[k]; !ok {
+				allVars[k] = v
+				order = append(order, k)
+			}
+		}
+	}
+	sort.Slice(order, func(i, j int) bool {
+		if order[i].Pos() != order[j].Pos() {
+			return order[i].Pos() < order[j].Pos()
+		}
+		return order[i].Name() < order[j].Name()
+	})
+	for _, k := range order {
+		v0 := allVars[k]
+		vals := make([]Term, len(live))
 		diff := false
-		for _, s := range live[1:] {
+		for i, s := range live {
 			v, ok := s.vars[k]
 			if !ok {
-				all = false
-				break
+				v = x.freshVal(k.Name()+"?", v0.Sort, v0.GoT)
 			}
-			if v.S != v0.S {
+			vals[i] = v
+			if v.S != vals[0].S {
 				diff = true
 			}
 		}
-		if !all {
-			continue
-		}
 		if !diff {
-			out.vars[k] = v0
+			out.vars[k] = vals[0]
 			continue
 		}
-		t := live[len(live)-1].vars[k]
+		t := vals[len(live)-1]
 		for i := len(live) - 2; i >= 0; i-- {
-			t = Ite(live[i].pc, live[i].vars[k], t)
+			t = Ite(live[i].pc, vals[i], t)
 		}
-		nm := "v"
-		if k != nil {
-			nm = k.Name()
-		}
-		nt := x.define(nm, t)
+		nt := x.define(k.Name(), t)
 		nt.GoT = v0.GoT
 		nt.Sort = v0.Sort
 		out.vars[k] = nt
